@@ -1651,13 +1651,19 @@ class TrajectoryStore:
             file_index = 0
             group_index = index
 
-            # If this is a merged store, find the right file and index into the
-            # right group in that file.
-            if nc_files.size_index is not None:
+            # Find the right file and the index into the right group in that
+            # file. A merged store has several files, whose cumulative sizes
+            # are in `size_index`; otherwise there is a single file, whose
+            # current length is that of its trajectory dimension (which grows
+            # as trajectories are added in CREATE and APPEND modes).
+            if self.merged_store and nc_files.size_index is not None:
                 file_index = bisect.bisect_left(nc_files.size_index, index + 1)
-                if file_index >= len(nc_files.size_index):
+                if index < 0 or file_index >= len(nc_files.size_index):
                     return
-                group_index = index - nc_files.size_index[file_index]
+                if file_index > 0:
+                    group_index = index - nc_files.size_index[file_index - 1]
+            elif index < 0 or index >= len(nc_files.traj_dim[0]):
+                return
             group = nc_files.groups[fs_name][file_index]
 
             # Read data from NetCDF variables.
